@@ -1,4 +1,4 @@
-import BoxoModel.C29.Lemmas
+import BoxoModel.C29.Conc
 /-!
 # C29 — Name publishing is monotone and resolution is consistent
 
@@ -362,6 +362,65 @@ theorem c29_once_nocache (s : St) (p : Path) (h : s.cap = 0) : (resolveOnce s p)
   · rfl
   · simp only [cacheGet, h, beq_self_eq_true, if_true, cacheSet, Bool.true_or]
     split <;> (try split) <;> rfl
+
+/-! ## Concurrent publishes
+
+The small-step system of `Model.lean`: each publish is `lock+read` ; `write+unlock` ; `routing put` ;
+`cache update`, the steps of different publishes interleave arbitrarily (`sched` = any list of
+thread indices, of any length; blocked and finished threads idle). -/
+
+/-- Because `p.mu` covers the read of the current record AND the write of the new one (the real
+code), every interleaving of any number of concurrent publishes leaves the publisher's datastore
+exactly as SOME sequential run of (a sub-multiset of) those publishes leaves it — the order in which
+the threads held the lock. Routing puts and cache updates, which happen outside the lock, cannot
+disturb this (with a plain or a sequence-validating routing store). -/
+theorem c29_conc_linearizable (validating : Bool) (s : St) (reqs : List Req) (sched : List Nat) :
+    ∃ ord : List Req, (∀ r ∈ ord, r ∈ reqs) ∧
+      (runSched validating (initConc s reqs) sched).st.dstore = (run s (ord.map reqOp)).dstore := by
+  obtain ⟨ord, h1, h2⟩ := runSched_sim validating sched (initConc s reqs) s (inv_init s reqs)
+    ⟨rfl, fun _ _ => rfl⟩
+  refine ⟨ord, ?_, h2.1⟩
+  intro r hr
+  have := h1 r hr
+  simpa [reqsOf, initConc, Function.comp_def] using this
+
+/-- … hence the sequence rule extends to concurrent histories: under every interleaving the
+sequence number of the publisher's record of every name never decreases (and each accepted publish
+obeys `c29_publish_accepted` at its place in the equivalent sequential order). -/
+theorem c29_conc_seq_monotone (validating : Bool) (s : St) (reqs : List Req) (sched : List Nat) (k : Nat) :
+    optLe (dsSeq s k) (dsSeq (runSched validating (initConc s reqs) sched).st k) := by
+  obtain ⟨ord, _, h⟩ := c29_conc_linearizable validating s reqs sched
+  have := c29_seq_monotone (ord.map reqOp) s k
+  unfold dsSeq at this ⊢
+  rw [h]; exact this
+
+/-- The lock must cover the read: if two publishes read the current record before either writes
+(the read moved out of the critical section), both are accepted with the SAME sequence number for
+different values, and two publishes carrying the same explicit sequence are both accepted. -/
+theorem c29_unlocked_read_counterexample :
+    ∃ (s : St) (a b : Req) (ra rb : Rec), a.k = b.k ∧
+      (pubWrite s (getPublished s a.k) a).2 = some ra ∧
+      (pubWrite (pubWrite s (getPublished s a.k) a).1 (getPublished s a.k) b).2 = some rb ∧
+      ra.seq = rb.seq ∧ ra.value ≠ rb.value ∧
+      ∃ (a' b' : Req), a'.seq = some 7 ∧ b'.seq = some 7 ∧
+        (pubWrite s (getPublished s 0) a').2.isSome = true ∧
+        (pubWrite (pubWrite s (getPublished s 0) a').1 (getPublished s 0) b').2.isSome = true := by
+  refine ⟨{ dstore := [(0, ⟨⟨.cid 0, [], false⟩, 3, 0⟩)] }, ⟨0, ⟨.cid 1, [], false⟩, none, none⟩,
+    ⟨0, ⟨.cid 2, [], false⟩, none, none⟩, ⟨⟨.cid 1, [], false⟩, 4, 5 * minute⟩, ⟨⟨.cid 2, [], false⟩, 4, 5 * minute⟩,
+    rfl, by decide, by decide, rfl, by decide,
+    ⟨0, ⟨.cid 1, [], false⟩, none, some 7⟩, ⟨0, ⟨.cid 2, [], false⟩, none, some 7⟩, rfl, rfl, by decide, by decide⟩
+
+/-- Known finding `concurrent-publish-cache-loser`, in the model: an interleaving of two publishes in
+which the one that held the lock FIRST updates the cache LAST. Datastore and (validating) routing
+store hold the second publish's record, one resolution step through the cache returns the first
+publish's value. -/
+theorem c29_conc_cache_loser_example :
+    ∃ (s : St) (a b : Req) (sched : List Nat),
+      let c := runSched true (initConc s [a, b]) sched
+      (afind c.st.dstore 0).map (·.value) = some b.value ∧ (afind c.st.store 0).map (·.value) = some b.value ∧
+      (resolveOnce c.st ⟨.name 0 0, [], false⟩).2 = .ok a.value (5 * minute) ∧ a.value ≠ b.value := by
+  refine ⟨{ cap := 8 }, ⟨0, ⟨.cid 1, [], false⟩, none, none⟩, ⟨0, ⟨.cid 2, [], false⟩, none, none⟩,
+    [0, 0, 1, 1, 1, 1, 0, 0], by decide, by decide, by decide, by decide⟩
 
 /-! Non-vacuity: a three-hop chain (name → domain → name → /ipfs/C0/x) with remainders, through a
 warm two-entry cache. -/
